@@ -106,6 +106,17 @@ def exec_case(case):
     # the map as the caller holds it: native integers, or the big-endian arrays astropy hands out for FITS data
     if case.get("map_dtype"):
         data = data.astype(case["map_dtype"])
+    lay = case.get("map_layout")
+    if lay == "fortran":
+        data = np.asfortranarray(data)  # same values and shape, column-major memory
+    elif lay == "transposed-view":
+        data = np.ascontiguousarray(np.swapaxes(data, 0, 1)).swapaxes(0, 1)  # a .T-like view of an (nx, ny, ...) array
+    elif lay == "channel-first" and planes:
+        data = np.moveaxis(np.ascontiguousarray(np.moveaxis(data, -1, 0)), 0, -1)  # a (planes, ny, nx) cube shown as (ny, nx, planes)
+    elif lay == "strided":
+        wide = np.zeros((ny * 2, nx * 3) + data.shape[2:], dtype=data.dtype)
+        wide[::2, ::3] = data
+        data = wide[::2, ::3]  # a strided window of a larger array
     data_before = data.copy()
     pts = case["points"]
     shape = tuple(case["shape"])
@@ -148,6 +159,11 @@ def exec_case(case):
             lon_in.setflags(write=False)
             lat_in.setflags(write=False)
         out = np.asarray(f(lon_in, lat_in))
+        if req.get("after"):
+            # the caller keeps this result and makes another request of the same shape through the same sampler
+            a_ = req["after"]
+            ai = np.arange(lon.size) % len(a_)
+            f(np.array([q[0] for q in a_], dtype=float)[ai].reshape(lon.shape), np.array([q[1] for q in a_], dtype=float)[ai].reshape(lon.shape))
     if data.dtype != data_before.dtype or not np.array_equal(data, data_before):
         raise Violation("cell", f"{variant} sampler on a {ny}x{nx} map of dtype {data_before.dtype}: the caller's map was modified by creating / using the sampler")
     exp_shape = shape + ((planes,) if planes else ())
@@ -220,6 +236,8 @@ def exec_case(case):
         cls.append("shifted-by-turns")
     if any(abs(abs(p[1]) - math.pi / 2) < 1e-12 for p in pts):
         cls.append("pole-row")
+    if lay:
+        cls.append("map-layout:" + lay)
     for k_ in sorted(req):
         cls.append("request:" + k_)
     if big:
@@ -281,6 +299,12 @@ def strat(draw, tier):
         case["map_dtype"] = draw(st.sampled_from([">i4", ">f8", ">f4", "<f8", "<i4", ">i8"]))
     if draw(st.integers(0, 5)) == 0:
         case["other_sampler_first"] = draw(st.sampled_from(["plain", "zeroright", "planet", "planet_zeroleft", variant]))
+    if draw(st.integers(0, 4)) == 0:
+        # the map as other legal numpy arrays of the same shape and values: column-major, a transposed or strided view, channel-first
+        case["map_layout"] = draw(st.sampled_from(["fortran", "transposed-view", "channel-first", "strided"]))
+    if draw(st.integers(0, 5)) == 0 and not (case.get("request") or {}).get("int") and not (case.get("request") or {}).get("alias"):
+        # a later request of the same shape through the same sampler, made before the first result is looked at
+        case.setdefault("request", {})["after"] = [[draw(st.floats(-2 * math.pi, 2 * math.pi)), draw(st.floats(-math.pi / 2, math.pi / 2))] for _ in range(draw(st.integers(1, 4)))]
     if draw(st.integers(0, 14)) == 0:
         case["big"] = draw(st.sampled_from([[256, 256], [520, 256], [256, 520], [600, 130], [130, 600], [70000, 1], [1, 3000], [300, 300], [257, 256], [1000, 70]]))
     return case
